@@ -210,6 +210,12 @@ package tars
 //@   ensures [C09] s.queueLen == q0
 //@   ensures s.ginv == old(s.ginv) && s.manager == old(s.manager) && ctx.hasdl == old(ctx.hasdl) && msg.Ser == old(msg.Ser)
 //@   site SelectAdapterProxy#0 ghost s.gentered = false
+//@   site SelectAdapterProxy#0 ghost s.gotreply = false
+//@   site successAdd#1 ghost s.gotreply = true
+//@   ensures [C01] (s.gotreply && msg.Resp != nil && msg.Resp.IRet == 0 && msg.Status == 0) ==> result == nil
+//@   ensures [C01] (s.gotreply && msg.Resp != nil && msg.Resp.IRet != 0 && msg.Resp.IRet != 1 && len(msg.Resp.SResultDesc) > 0) ==> (istype(result, "*Error") && cast(result, "*Error").Code == msg.Resp.IRet && cast(result, "*Error").Message == msg.Resp.SResultDesc)
+//@   ensures [C01] (s.gotreply && msg.Resp != nil && msg.Resp.IRet == 1 && len(msg.Resp.SResultDesc) > 0) ==> (result != nil && errMsg(result) == msg.Resp.SResultDesc)
+//@   ensures [C01] (s.gotreply && msg.Resp != nil && msg.Resp.IRet != 0) ==> result != nil
 //@   site Store#0 ghost s.gentered = true
 //@   ensures [C09] s.gentered ==> (msg.Adp != nil && !select(msg.Adp.resp.dom, ifaceof(id0, "int32")))
 //
